@@ -166,6 +166,11 @@ partial def exprOf : Sexp → Except String Expr
       | .atom "-" => pure none
       | x => do pure (some (← exprOf x)))
     .ok (.getline lv' f')
+  | .list [.atom "getlinecmd", lv, cmd] => do
+    let lv' ← (match lv with
+      | .atom "-" => pure none
+      | x => do pure (some (← exprOf x)))
+    .ok (.getlineCmd lv' (← exprOf cmd))
   | .list [.atom "close", e] => do .ok (.close (← exprOf e))
   | .list (.atom h :: _) => .error s!"bad expr {h}"
   | _ => .error "bad expr"
@@ -178,6 +183,7 @@ def redirOf : Sexp → Except String Redir
   | .atom "-" => .ok .none
   | .list [.atom "trunc", e] => do .ok (.trunc (← exprOf e))
   | .list [.atom "append", e] => do .ok (.append (← exprOf e))
+  | .list [.atom "pipe", e] => do .ok (.pipe (← exprOf e))
   | _ => .error "bad redirection"
 
 mutual
